@@ -16,7 +16,7 @@ META = {
                    'set, parity) stages executed per step equals the definition of each scheme (Lie E O; Strang E O E; Yoshida 3 Strang blocks w1,w0,w1; '
                    'Kahan-Li 17 Strang blocks, palindromic) and every propagator set is built with coefficients [c/2, c]; coefficient tables satisfy their order '
                    'conditions (sum w = 1, sum w^3 = 0, sum w^5 = 0 for Kahan-Li) to 1e-12. (I) end to end: one and two steps of Lie and Strang equal the dense '
-                   'product of the same exponentials; normalisation divides by TT.norm(p); skew-Hermitian generators: 2-norm preserved given unitary exponentials. normalisation (all four schemes, normalize 0/1/2, stages replaced by the identity): every produced state == un-normalised state of its step / TT.norm(p) of it, one norm call per step, entries of the returned list are distinct objects holding the state of their own step; concrete replays run the unmodified integrators and check the unit Manhattan / Euclidean norm of every state densely.',
+                   'product of the same exponentials; normalisation divides by TT.norm(p); skew-Hermitian generators: 2-norm preserved given unitary exponentials. normalisation (all four schemes, normalize 0/1/2, stages replaced by the identity): every produced state == un-normalised state of its step / TT.norm(p) of it, one norm call per step, entries of the returned list are distinct objects holding the state of their own step; concrete replays run the unmodified integrators and check the unit Manhattan / Euclidean norm of every state densely. propagators_unequal: site-dependent components on chains whose neighbouring sites have different local dimensions.',
     'bounds': {'quick': 'chain lengths 2-4, local dimension 2 (one case 3), interaction rank 1-2, real and complex, 1-2 steps',
                'thorough': 'chain length 5, more inhomogeneous cases'},
     'outside': ['global convergence orders 1/2/4/6 (consequence of the verified composition + order conditions: Yoshida 1990, Kahan-Li 1997)',
